@@ -352,8 +352,8 @@ class C06(Spec):
 
     def cases(self, rng, tier):
         quick = tier == 'quick'
-        yield from self._float_cases(rng, 4000 if quick else 200000)
-        for i in range(500 if quick else 3000):
+        yield from self._float_cases(rng, 4000 if quick else 150000)
+        for i in range(500 if quick else 2000):
             yield self._pipe_case(rng, big=(i % 3 == 0))
 
     # ------------------------------------------------------------------ lines
